@@ -183,7 +183,8 @@ def run_one(ch, cfg):
             except Exception:
                 pass
         if cls == "at-rest":
-            kind = ch.pick(["bytes", "bytes", "bytes", "re-parent", "re-sign", "swap-x509"], "rest.kind")
+            kind = ch.pick(["bytes", "bytes", "bytes", "re-parent", "re-sign", "swap-x509",
+                            "root-named-element"], "rest.kind")
             elems = doc["elements"]
             e = elems[ch.draw(len(elems), "rest.elem")]
             elem_name = e["name"]
@@ -197,6 +198,16 @@ def run_one(ch, cfg):
                     e["message"] = base64.b64encode(alter_bytes(raw, ch, "rest")).decode()
                 else:
                     e[f] = alter_bytes(bytes.fromhex(e[f]), ch, "rest").hex() or "00"
+            elif kind == "root-named-element":
+                # a stray element carrying the reserved name of the root of trust (a copy of one of
+                # the chain's certificates): the chain is still judged against the verifier's root
+                xs = [x for x in elems if x.get("type") == "x509_pem"]
+                src = xs[ch.draw(len(xs), "rootnamed.src")]
+                twin = dict(src)
+                twin["name"] = "sgx_root"
+                twin["signed_by"] = ch.pick(["sgx_root", src["signed_by"]], "rootnamed.parent")
+                elems.insert(ch.draw(len(elems) + 1, "rootnamed.pos"), twin)
+                elem_name = "sgx_root"
             elif kind == "re-parent":
                 e["signed_by"] = ch.pick(["sgx_root", "platform_ca", "quoting_enclave", "attestation"],
                                          "rest.parent")
@@ -214,11 +225,17 @@ def run_one(ch, cfg):
                     xs[0]["message"], xs[1]["message"] = xs[1]["message"], xs[0]["message"]
             w.fs.put(A.SGX_ATT, json.dumps(doc).encode())
         elif cls == "wrong-root":
-            kind = ch.pick(["other-root", "corrupted", "platform-ca-as-root", "expired-root"],
-                           "root.kind")
-            if kind == "other-root":
+            kind = ch.pick(["other-root", "corrupted", "platform-ca-as-root", "expired-root",
+                            "other-root-own-root-in-certificate"], "root.kind")
+            if kind in ("other-root", "other-root-own-root-in-certificate"):
                 o = sgxpki.Pki(b"other" + ch.bytes(4, "root.k"), w.clock.now)
                 root_der = o.root_der
+                if kind != "other-root":
+                    # the certificate brings its own root along, under the reserved name
+                    doc["elements"].insert(ch.draw(len(doc["elements"]) + 1, "ownroot.pos"), {
+                        "name": "sgx_root", "type": "x509_pem", "signed_by": "sgx_root",
+                        "message": base64.b64encode(pki.root_der).decode()})
+                    w.fs.put(A.SGX_ATT, json.dumps(doc).encode())
             elif kind == "corrupted":
                 root_der = flip(root_der, ch, "root")
             elif kind == "platform-ca-as-root":
